@@ -687,6 +687,12 @@ class H2Connection(Protocol, TimeoutMixin):
                 if self._outboundStreamQueues.get(stream.streamID):
                     self.priority.unblock(stream.streamID)
 
+        # The sending loop may be waiting because every stream was blocked.
+        if self._sendingDeferred is not None:
+            d = self._sendingDeferred
+            self._sendingDeferred = None
+            d.callback(None)
+
     def getPeer(self):
         """
         Get the remote address of this connection.
